@@ -21,8 +21,9 @@ type Disk struct {
 	MS *raft.MemoryStorage
 	// HS mirrors the hard state written to MS (nil if none).
 	HS *pb.HardState
-	// SyncedCommit is the commit index of the last write known to be fsynced.
-	SyncedCommit uint64
+	// SyncedHS is the hard state as of the last write known to be fsynced
+	// (nil if none); a crash may revert HS to it.
+	SyncedHS *pb.HardState
 	// InitCS, if set, is returned from InitialState (ConfState as of Applied).
 	InitCS *pb.ConfState
 
@@ -94,11 +95,25 @@ func (d *Disk) Snapshot() (*pb.Snapshot, error) {
 	return d.MS.Snapshot()
 }
 
+// syncAll marks everything written so far as fsynced.
+func (d *Disk) syncAll() { d.SyncedHS = cloneHS(d.HS) }
+
+// loseUnsynced reverts the hard state to the last synced one. Returns true
+// if something was lost.
+func (d *Disk) loseUnsynced() bool {
+	if d.HS == nil || (d.SyncedHS != nil && d.HS.GetTerm() == d.SyncedHS.GetTerm() && d.HS.GetVote() == d.SyncedHS.GetVote() && d.HS.GetCommit() == d.SyncedHS.GetCommit()) {
+		return false
+	}
+	d.HS = cloneHS(d.SyncedHS)
+	_ = d.MS.SetHardState(cloneHS(d.SyncedHS))
+	return true
+}
+
 func (d *Disk) setHardState(hs *pb.HardState, synced bool) {
 	d.HS = cloneHS(hs)
 	_ = d.MS.SetHardState(cloneHS(hs))
 	if synced {
-		d.SyncedCommit = hs.GetCommit()
+		d.SyncedHS = cloneHS(hs)
 	}
 }
 
